@@ -2,14 +2,16 @@
 //
 // Crash lane (fault enumeration): for every block of a generated chain, the commit sequence
 // (App.CommitBlock: state commit -> block store -> utxo store -> mempool update, then
-// BlockExecutor.ApplyBlock: status save) is executed on a fresh clone of the pre-commit databases
-// once per write boundary k = 0..W with every later write dropped; the node is rebuilt from the
-// surviving bytes by chainkit.OpenNode (= node.NewNode's reconciliation) and an oracle recomputes
-// from the stored blocks what every other store must hold; then the node must continue.
+// BlockExecutor.ApplyBlock: evidence marks + status save) is executed on a fresh clone of the
+// pre-commit databases once per write boundary k = 0..W with every later write dropped; the node
+// is rebuilt from the surviving bytes by chainkit.OpenNode (= node.NewNode's reconciliation) and an
+// oracle recomputes from the stored blocks what every other store must hold; then the node must
+// continue (re-commit the interrupted block, commit one more). Where the restart itself writes
+// (the one-block status rebuild) it is crashed after each of its writes and restarted again.
 //
 // Pruning lane (exploration): chains of length 1..40, retention K in {1,2,5,10,50,100}; both
-// pruning entry points are called as node.ClearHistoricalData does and everything readable for
-// the retained heights before the call must be readable and unchanged after it.
+// pruning entry points are called as node.ClearHistoricalData does, under an operation budget,
+// and for every retained height everything recorded when it was committed must be readable.
 package c13
 
 import (
@@ -20,30 +22,73 @@ import (
 )
 
 // crashEvery: case index i is a crash-lane case iff i%crashEvery == 0, else a pruning case.
+// Crash case number j = i/crashEvery runs with GOMAXPROCS 2 (j even) or 16 (j odd) and in trie
+// mode (j/2 even) or flat key/value mode (j/2 odd).
 const crashEvery = 4
+
+const quickCases = 128
+
+func cases(tier string) int {
+	if tier == "thorough" {
+		return 3200
+	}
+	return quickCases
+}
+
+// floors measured on the unchanged tree at VERIF_SEED=1..5 (quick), about half of the minimum;
+// only counters that do not depend on whether the known defects are present.
+var quickFloors = map[string]int64{
+	"blocks_enumerated":                   64,
+	"blocks_with_conf_inputs":             20,
+	"blocks_with_conf_outputs":            35,
+	"blocks_without_conf":                 18,
+	"blocks_with_duplicate_vote_evidence": 15,
+	"crash_cases_trie":                    8,
+	"crash_cases_flatkv":                  8,
+	"crash_points":                        1900,
+	"crash_points_forced_order":           1000,
+	"clean_restarts":                      64,
+	"restarts":                            1900,
+	"restart_block_lost":                  1300,
+	"restart_block_survived":              550,
+	"status_rebuilt":                      400,
+	"recovery_crash_points":               1500,
+	"recommits":                           550,
+	"continuations":                       1000,
+	"state_comparisons":                   3500,
+	"keyimages_checked":                   4000,
+	"outputs_checked":                     20000,
+	"txindex_checked":                     18000,
+	"prune_ticks":                         70,
+	"prune_ticks_keep_gt_length":          24,
+	"prune_ticks_keep_lt_length":          23,
+	"prune_chains_with_validator_change":  27,
+	"retained_heights_checked":            130,
+}
 
 func init() {
 	core.Register(&core.Check{
 		ID:        "C13",
 		Level:     "fault_enumeration",
-		Technique: "crash-point enumeration at database write boundaries of the real commit sequence on a real single-process chain (write-dropping dbm.DB wrapper on every store, restart through the node's reconciliation logic, cross-store oracle recomputed from the stored blocks, bounded continuation) + differential read-back monitoring of both pruning entry points under an operation budget",
-		Rule: "crash case = generated chain of 4-5 blocks (plain transfers, account->confidential, confidential->confidential with ring 1/3-5, confidential->account, empty) where EVERY block is committed once per crash point k=0..W (W measured per block) and, for the cuts inside BlockStore.SaveBlock's three concurrent writers, once per each of the 3! forced writer orders, alternating GOMAXPROCS 1/16; " +
-			"non-trivial = the chain holds at least one block with confidential inputs, one with confidential outputs and one without either, and every crash point was restarted and judged. " +
-			"prune case = chain of length 1..40 with injected validator changes and transactions, K from {1,2,5,10,50,100}, 1-3 pruning ticks, optional restart+continuation+another tick; non-trivial = at least one pruning tick executed; distinct by (K, length, tick heights, change heights)",
+		Technique: "crash-point enumeration at database write boundaries of the real commit sequence on a real single-process chain (write-dropping dbm.DB wrapper on every store, restart through the node's reconciliation logic, cross-store oracle recomputed from the stored blocks against a fault-free reference replica, bounded continuation) + read-back monitoring of both pruning entry points under an operation budget",
+		Rule: "crash case = generated chain of 4 (thorough 5) blocks (plain transfers, account->confidential, confidential->confidential with ring 1/3-5, confidential->account, empty, with/without duplicate-vote evidence) in trie or flat key/value mode where EVERY block is committed once per crash point k=0..W (W measured per block, 15-19) and, for the cuts inside BlockStore.SaveBlock's three concurrent writers, once per each of the 3! forced writer orders; every restart that rebuilds the status is itself crashed after each of its writes; " +
+			"non-trivial = every crash point of every block was restarted and judged and the chain holds confidential inputs, confidential outputs and a block without either (forced by the plan); distinct by hash of (block kinds, tx counts, confidential inputs/outputs, evidence, genesis). " +
+			"prune case = chain of length 1..40 with injected validator changes and transactions, K from {1,2,5,10,50,100}, 1-3 pruning ticks, optional restart + 2 more blocks + another tick; non-trivial = at least one pruning tick executed; distinct by (K, length, tick heights, change heights, consensus-state lifetime)",
 		Assumptions: []string{
-			"storage mode: trie (full_node) only — chainkit builds the genesis and opens nodes with isTrie=true; the flat key/value mode with its undo file is not exercised",
 			"databases are MemDBs behind a wrapper that gives them goleveldb's read semantics (ErrNotFound on Load/Exist of a missing key, copies in and out); batches are atomic (C19 checks that promise per backend); torn writes inside one batch or one Set are not modelled",
-			"a crash is a prefix cut of the global sequence of durable write units; the three concurrent writers of SaveBlock are forced into each of their 6 relative orders by holding a writer at its first write",
-			"the interrupted block is re-delivered after restart by the harness (CheckBlock+CommitBlock+ApplyBlock), standing in for WAL replay / block gossip",
-			"pruning lane: validator changes are injected at the validators argument of BlockExecutor.ApplyBlock (the white-list contract is not driven); ConsensusState is constructed but not started and its exported Height field is advanced by the harness",
+			"a crash is a prefix cut of the global sequence of durable database write units; the three concurrent writers of SaveBlock are forced into each of their 6 relative orders by holding a writer at its first write; GOMAXPROCS alternates 2/16 per case",
+			"flat key/value mode: the undo file kvState.wal is a real file in a per-node directory; file operations (Truncate/Write/Sync) bypass dbm.DB and are not cut: after a simulated crash the file holds the undo records of the whole interrupted commit (a superset of what a crash at that point leaves; surplus records restore values that are already in place)",
+			"the interrupted block is re-delivered after restart by the harness (CheckBlock+CommitBlock+ApplyBlock), standing in for WAL replay / block gossip; validator-set changes are not generated in the crash lane (the white-list contract is not driven)",
+			"duplicate-vote evidence is added to the node's evidence pool before the block that carries it is applied (a node that never saw the evidence panics in EvidenceStore.getEvidenceInfo — outside C13)",
+			"pruning lane: trie mode; validator changes are injected at the validators argument of BlockExecutor.ApplyBlock; ConsensusState is constructed but not started and its exported Height field is advanced by the harness (or a fresh ConsensusState is built per tick)",
 		},
-		Cases: func(tier string) int {
+		Cases: cases,
+		Batch: func(tier string) int {
 			if tier == "thorough" {
-				return 1600
+				return 2 * crashEvery
 			}
-			return 128
+			return crashEvery
 		},
-		Batch: func(tier string) int { return crashEvery },
 		Run: func(c *core.Ctx) {
 			if c.Index%crashEvery == 0 {
 				runCrash(c)
@@ -52,9 +97,13 @@ func init() {
 			}
 		},
 		Floors: func(tier string) map[string]int64 {
-			return map[string]int64{}
+			out := map[string]int64{}
+			for k, v := range quickFloors {
+				out[k] = v * int64(cases(tier)) / quickCases
+			}
+			return out
 		},
 		Init:         core.QuietLogs,
-		BatchTimeout: 15 * time.Minute,
+		BatchTimeout: 20 * time.Minute,
 	})
 }
